@@ -4,7 +4,7 @@ import copy
 from hypothesis import strategies as st
 
 from vlib import progs, stoch
-from vlib.runner import Outcome
+from vlib.runner import Inconclusive, Outcome
 from vlib.simharness import Harness, Recorder, dec_ref, enc_obs
 
 ID = "C06"
@@ -156,7 +156,8 @@ _LONG = {"clock": "float", "cap": 10 ** 6, "rep": {"start": (0.0).hex(), "warmup
 
 def enumerate_cases(tier):
     """two fixed scenarios in which the thread of the PREVIOUS run is still around when the next replication begins"""
-    return [{"kind": "reinit-from-end-listener"}, {"kind": "init-while-slow-handler-after-stop"}]
+    return [{"kind": "reinit-from-end-listener"}, {"kind": "init-while-slow-handler-after-stop"},
+            {"kind": "init-after-stop-inside-slow-handler"}]
 
 
 def _run_fixed(case, out):
@@ -192,6 +193,45 @@ def _run_fixed(case, out):
                 out.fail("second-initialize-raised-" + type(box["err"]).__name__, repr(box["err"]))
                 return
             h.settle(allow_limbo=True)
+        elif case["kind"] == "init-after-stop-inside-slow-handler":
+            # the handler of an event calls stop() itself and goes on working for a while; a driver that sees the
+            # simulator "not running" initialises the next replication: refused until the handler has returned
+            import threading
+            reached, release = threading.Event(), threading.Event()
+            probe = {}
+
+            def on_done(m, seq, node):
+                if len(m.trace) - 1 == 5 and "stopped" not in probe:
+                    probe["stopped"] = True
+                    try:
+                        m.simulator.stop()
+                    except Exception as e:
+                        probe["stop_exc"] = repr(e)
+                    reached.set()
+                    release.wait(8.0)
+            h.model.on_done = on_done
+            h.sim.start()
+            if not reached.wait(20.0):
+                raise Inconclusive("the run did not reach the sixth event")
+            n0 = h.sim.eventlist().size()
+            probe["running"] = h.sim.is_starting_or_running()
+            try:
+                h.sim.initialize(h.model, h.replication)
+                probe["init"] = "accepted"
+            except DSOLError:
+                probe["init"] = "refused"
+            except Exception as e:
+                probe["init"] = type(e).__name__
+            probe["pending"] = [n0, h.sim.eventlist().size()]
+            release.set()
+            h.settle(allow_limbo=True)
+            h.model.on_done = None
+            if probe.get("init") != "refused" or probe["pending"][0] != probe["pending"][1]:
+                out.fail("initialize-while-running", {"while the handler that called stop() was still working": probe})
+                return
+            h.rec = Recorder()
+            h.initialize()
+            h.run_piece(["start"])
         else:
             # stop() while an event takes longer than stop() waits; until the run thread has left that event the
             # simulator is still stopping: initialize is refused and the pending events stay
